@@ -393,19 +393,23 @@ connection epoch (`v.aborted`). -/
 
 /-- In every jointly reachable situation the bot is connected (end of MOTD seen, `afterConnect`), or it
 aborted deliberately (`driver.reconnect`), or the conformant server still owes it an answer: the bot
-never waits for something a conformant server will not send. -/
+never waits for something a conformant server will not send — except in the one situation of the recorded
+finding C08-req-after-end (`v.reopened`: a CAP NEW arrived after the bot's CAP END while the registration
+was still incomplete, the bot answered with a CAP REQ, which suspends the registration again, and never sends
+the second CAP END the server now waits for; `req_after_end_witness`). -/
 theorem progress (cfg : Cfg) (hd : cfg.realDriver = false) (base : St) (v3 : Bool) (s : St) (v : View)
-    (r : PReach cfg base v3 s v) : s.afterConnect = true ∨ v.aborted = true ∨ Owes v := by
-  rcases inv_preach hd r with h | h | ⟨_, _, hp⟩
+    (r : PReach cfg base v3 s v) : s.afterConnect = true ∨ v.aborted = true ∨ Owes v ∨ v.reopened = true := by
+  rcases inv_preach hd r with h | h | h | ⟨_, _, hp⟩
   · exact .inr (.inl h)
   · exact .inl h
-  · exact .inr (.inr (owes_of_phase hp))
+  · exact .inr (.inr (.inr h))
+  · exact .inr (.inr (.inl (owes_of_phase hp)))
 
 /-- Spelled out: when nothing is owed any more, the registration is complete or was abandoned. -/
 theorem no_stuck_state (cfg : Cfg) (hd : cfg.realDriver = false) (base : St) (v3 : Bool) (s : St) (v : View)
     (r : PReach cfg base v3 s v) (hls : v.v3 = true → v.lsOwed = false ∧ v.reqs = [] ∧ v.auth.owed = false)
-    (hw : canWelcome v = true → 7 ≤ v.stage) : s.afterConnect = true ∨ v.aborted = true := by
-  rcases progress cfg hd base v3 s v r with h | h | h
+    (hw : canWelcome v = true → 7 ≤ v.stage) (hro : v.reopened = false) : s.afterConnect = true ∨ v.aborted = true := by
+  rcases progress cfg hd base v3 s v r with h | h | h | h
   · exact .inl h
   · exact .inr h
   · exfalso
@@ -416,6 +420,7 @@ theorem no_stuck_state (cfg : Cfg) (hd : cfg.realDriver = false) (base : St) (v3
       · exact h b
       · rw [c] at h; cases h
     · have := hw hc; omega
+  · rw [hro] at h; cases h
 
 /-- The part of "CAP END only when no request is outstanding" that does hold (the full statement is
 refuted by `cap_end_outstanding_witness`): against a conformant server — split ACK / NAK answers, CAP NEW and
@@ -424,10 +429,11 @@ been ACKed or NAKed, in every joint history, unless a CAP NEW arrived after the 
 (`lateNew`: the one situation in which the code ends the negotiation without looking at its requests). -/
 theorem cap_end_nothing_outstanding_partial (cfg : Cfg) (hd : cfg.realDriver = false) (base : St) (v3 : Bool) (s : St)
     (v : View) (r : PReach cfg base v3 s v) (hna : v.aborted = false) (hac : s.afterConnect = false)
-    (he : v.ended = true) (hnew : v.lateNew = false) : ∀ c ∈ s.req, c ∈ s.ack ∨ c ∈ s.nak := by
-  rcases inv_preach hd r with h | h | ⟨_, _, hp⟩
+    (he : v.ended = true) (hnew : v.lateNew = false) (hro : v.reopened = false) : ∀ c ∈ s.req, c ∈ s.ack ∨ c ∈ s.nak := by
+  rcases inv_preach hd r with h | h | h | ⟨_, _, hp⟩
   · rw [hna] at h; cases h
   · rw [hac] at h; cases h
+  · rw [hro] at h; cases h
   · cases hp with
     | neg _ he' _ _ _ _ _ _ _ _ => rw [he] at he'; cases he'
     | sasl _ he' _ _ _ _ _ _ _ _ _ _ => rw [he] at he'; cases he'
@@ -439,11 +445,12 @@ theorem cap_end_nothing_outstanding_partial (cfg : Cfg) (hd : cfg.realDriver = f
 acknowledged, refused, or part of a CAP REQ line the conformant server has yet to answer; and every such line
 is non-empty, so the server does owe that answer. -/
 theorem cap_requests_accounted (cfg : Cfg) (hd : cfg.realDriver = false) (base : St) (v3 : Bool) (s : St)
-    (v : View) (r : PReach cfg base v3 s v) (hna : v.aborted = false) (hac : s.afterConnect = false) :
+    (v : View) (r : PReach cfg base v3 s v) (hna : v.aborted = false) (hac : s.afterConnect = false) (hro : v.reopened = false) :
     (∀ c ∈ s.req, c ∈ s.ack ∨ c ∈ s.nak ∨ c ∈ v.reqs.flatten) ∧ (∀ l ∈ v.reqs, l ≠ []) := by
-  rcases inv_preach hd r with h | h | ⟨_, hc, _⟩
+  rcases inv_preach hd r with h | h | h | ⟨_, hc, _⟩
   · rw [hna] at h; cases h
   · rw [hac] at h; cases h
+  · rw [hro] at h; cases h
   · exact ⟨hc.acc, hc.ne⟩
 
 /-- `authenticate_generator` for every text: full-size lines followed by one final line that is shorter
@@ -674,6 +681,37 @@ theorem kR6 : PReach kCfg {} true kS6.st kV6 :=
 example : kV2.reqs = [[sChghost]] ∧ kV3.reqs = [[sChghost], [sChghost, sSetname]] ∧ sBatch ∈ kS5.st.nak ∧
     Out.capEnd ∈ kS6.fast ∧ kV6.ended = true ∧ kV6.lateNew = false ∧ kV6.aborted = false ∧ kS6.st.afterConnect = false := by
   decide
+
+/-! the recorded finding C08-req-after-end: the joint history above continued by a CAP NEW while the bot waits
+for the welcome -/
+
+def sMsgid : Str := ['m','s','g','i','d']
+/-- `CAP * NEW :msgid` after the bot's CAP END → `CAP REQ :msgid`, which suspends the registration again -/
+def kS7 := step kCfg kS6.st ⟨sCAP, [exStar, sNEW, sMsgid], jn⟩
+def kV7 : View := seeStep { kV6 with avail := kV6.avail ++ lsKeys sMsgid, lateNew := kV6.lateNew || kV6.auth.owed || kV6.ended } kS7
+/-- `CAP * ACK :msgid`: everything is answered -/
+def kS8 := step kCfg kS7.st ⟨sCAP, [exStar, sACK, sMsgid], jn⟩
+def kV8 : View := seeStep { kV7 with reqs := reqsAfter (splitWs sMsgid) [sMsgid] [] } kS8
+
+theorem kR8 : PReach kCfg {} true kS8.st kV8 :=
+  .step (.step kR6
+    (by decide) (.capNew kV6 exStar sMsgid jn (by decide) (by decide) (by decide)))
+    (by decide) (.ack kV7 exStar sMsgid jn [sMsgid] [] (by decide) (by decide) (by decide) (by decide) (by decide))
+
+/-- Counter-example to `progress` without its last alternative: a joint history with a conformant server after
+which the bot is not connected, has not aborted, and the server owes nothing — it waits for a CAP END the bot
+(which sent `CAP REQ :msgid` after its `CAP END`, before being registered) will never send. -/
+theorem req_after_end_witness :
+    PReach kCfg {} true kS8.st kV8 ∧ kS8.st.afterConnect = false ∧ kV8.aborted = false ∧ ¬ Owes kV8 ∧
+    kV8.reopened = true ∧ kS8.st.fsm = .INIT_WAITING_MOTD ∧ kS8.fast = [] := by
+  refine ⟨kR8, by decide, by decide, ?_, by decide, by decide, by decide⟩
+  unfold Owes
+  have h1 : kV8.lsOwed = false := by decide
+  have h2 : kV8.reqs = [] := by decide
+  have h3 : kV8.auth.owed = false := by decide
+  have h4 : canWelcome kV8 = false := by decide
+  rw [h1, h2, h3, h4]
+  simp
 
 /-! ### SCRAM: the step machine with the library calls as parameters -/
 
